@@ -479,8 +479,16 @@ pub fn mutated_sentence() -> BoxedStrategy<String> {
         .boxed()
 }
 
+/// a run-on sentence of 41-70 words, optionally unterminated
+pub fn long_sentence() -> BoxedStrategy<String> {
+    (proptest::collection::vec(prop_oneof![4 => plain_word(), 1 => sel_str(&["a", "I", "x", "of", "the"])], 41..70), sel_str(&["", ".", "?"]))
+        .prop_map(|(ws, t)| ws.join(" ") + &t)
+        .boxed()
+}
+
 pub fn sentence() -> BoxedStrategy<String> {
     prop_oneof![
+        2 => long_sentence(),
         40 => harvested_sentence(),
         25 => mutated_sentence(),
         25 => word_sentence(),
